@@ -261,6 +261,49 @@ def gen_unit(rng, uid, opts):
     return u
 
 
+def make_twin(rng, u):
+    """a second injector over the same declarations, provider sets and provider functions as unit u (one wire
+    run analyses both: nothing learnt about the first may leak into the second); returns None if no other
+    result type is available"""
+    import copy
+    build = u.sets[-1]
+    closure_src = dict(u.src)
+    cands = [t for t in closure_src if t != u.inj["out"] and u.items[closure_src[t]]["kind"] not in ("arg",) and t[0] != "s"]
+    if not cands:
+        return None
+    out = rng.choice(cands)
+    # what the new result needs
+    need, todo = set(), [out]
+    while todo:
+        t = todo.pop()
+        if t in need or t not in closure_src:
+            continue
+        need.add(t)
+        todo.extend(u.items[closure_src[t]]["deps"])
+    needed_items = {closure_src[t] for t in need}
+
+    def set_used(k, seen=()):
+        s = u.sets[k]
+        return any(n in needed_items for n in s["items"]) or any(set_used(i) for i in s["imports"])
+    t = copy.copy(u)
+    t.shadow = True
+    t.twin_of = u
+    nb = dict(build)
+    nb["id"] = build["id"] + 50
+    nb["items"] = [n for n in build["items"] if n in needed_items]
+    nb["imports"] = [i for i in build["imports"] if set_used(i)]
+    nb.pop("order", None)
+    t.sets = u.sets[:-1] + [nb]
+    args = [u.items[n]["outs"][0] for n in needed_items if u.items[n]["kind"] == "arg"]
+    t.inj = dict(u.inj)
+    t.inj.update({"name": u.inj["name"] + "b", "args": [a for a in u.inj["args"] if a in args], "out": out,
+                  "argnames": None, "argnames_resolved": None,
+                  "cleanup": any(u.items[n].get("cleanup") for n in needed_items) or rng.random() < 0.2,
+                  "err": any(u.items[n].get("err") for n in needed_items) or rng.random() < 0.2})
+    t.tids = dict(u.tids)
+    return t
+
+
 def gen_prog(rng, name, opts):
     p = Prog(name)
     for k in range(rng.choice(opts.get("units", [1, 1, 2, 3]))):
@@ -270,6 +313,11 @@ def gen_prog(rng, name, opts):
                 break
         u.prog = p
         p.units.append(u)
+        if rng.random() < opts.get("p_twin", 0.3):
+            t = make_twin(rng, u)
+            if t is not None:
+                t.prog = p
+                p.units.append(t)
     return p
 
 
@@ -386,7 +434,8 @@ def materialise(prog):
             return gotype(u, td, frm)
 
         for u in prog.units:
-            for i, st in enumerate(u.structs):
+            shadow = getattr(u, "shadow", False)     # a twin injector over another unit's declarations
+            for i, st in enumerate([] if shadow else u.structs):
                 if st["pkg"] != pkg:
                     continue
                 lines = ["type %s struct {" % st["name"], "\tID int `wire:\"-\"`"]
@@ -397,7 +446,7 @@ def materialise(prog):
                 lines.append("}")
                 body.append("\n".join(lines))
                 body.append('func (x %s) WDesc() string { return fmt.Sprintf("%s#%%d{%%s}", x.ID, wtrace.Fields(x)) }' % (st["name"], st["name"]))
-            for j, d in enumerate(u.ifaces):
+            for j, d in enumerate([] if shadow else u.ifaces):
                 if d["pkg"] != pkg:
                     continue
                 body.append("type %s interface {\n\tWDesc() string\n\tM%s()\n}" % (d["name"], d["name"]))
@@ -405,12 +454,12 @@ def materialise(prog):
                 recv = "*" + impl["name"] if d["ptr"] else impl["name"]
                 # the marker method must be declared in the package of the struct
                 (body if impl["pkg"] == pkg else None)
-            for j, d in enumerate(u.ifaces):
+            for j, d in enumerate([] if shadow else u.ifaces):
                 impl = u.structs[d["impl"]]
                 if impl["pkg"] == pkg:
                     recv = "*" + impl["name"] if d["ptr"] else impl["name"]
                     body.append("func (x %s) M%s() {}" % (recv, d["name"]))
-            for it in u.items:
+            for it in ([] if shadow else u.items):
                 if it.get("pkg") != pkg or it["kind"] != "func":
                     continue
                 name = it.get("fn", "Prov%d" % it["id"])
@@ -466,7 +515,7 @@ def materialise(prog):
                 lines.append("}")
                 body.append("\n".join(lines))
             # provider sets declared in this package
-            for s in u.sets:
+            for s in ([] if shadow else u.sets):
                 if s["pkg"] != pkg or s["build"]:
                     continue
                 # provider sets of library packages live in ordinary files; in the injector package
@@ -698,7 +747,15 @@ def driver_main(prog):
 def plant(rng, u, kind):
     """mutate unit u so that Wire must reject it; returns a description or None if not applicable"""
     build = u.sets[-1]
-    used_items = [n for s in u.sets for n in s["items"]]
+    # items in the closure of the Build set (a twin injector does not import every library set)
+    seen, todo, used_items = set(), [len(u.sets) - 1], []
+    while todo:
+        k = todo.pop()
+        if k in seen:
+            continue
+        seen.add(k)
+        used_items += u.sets[k]["items"]
+        todo += u.sets[k]["imports"]
     if kind == "missing":
         cands = [n for n in used_items if u.items[n]["kind"] in ("func", "value", "ivalue")]
         if not cands:
@@ -728,6 +785,17 @@ def plant(rng, u, kind):
         build["items"].append(len(u.items) - 1)
         u.src[("v", i)] = len(u.items) - 1
         return "superfluous value of a type nothing needs"
+    if kind == "twinunused":
+        # the twin injector lists a provider function that only its sibling needs
+        if not getattr(u, "shadow", False):
+            return None
+        sib = u.twin_of.sets[-1]
+        cands = [n for n in sib["items"] if n not in build["items"] and u.items[n]["kind"] == "func"]
+        if not cands:
+            return None
+        n = rng.choice(cands)
+        build["items"].append(n)
+        return "provider Prov%d is needed by %s only" % (u.items[n]["id"], u.twin_of.inj["name"])
     if kind == "unexported":
         # an unexported provider function of a library package, reached through that package's own set
         for s in u.sets:
@@ -739,13 +807,24 @@ def plant(rng, u, kind):
                 u.items[n]["fn"] = "prov%d" % u.items[n]["id"]
                 return "provider %s of package %s is unexported" % (u.items[n]["fn"], s["pkg"])
         return None
+    def needed():
+        out, todo, seen = [], [u.inj["out"]], set()
+        while todo:
+            t = todo.pop()
+            if t in seen or t not in u.src:
+                continue
+            seen.add(t)
+            it = u.items[u.src[t]]
+            out.append(it)
+            todo.extend(it["deps"])
+        return out
     if kind == "neederr":
-        if not any(it.get("err") for it in u.items if it["kind"] == "func"):
+        if not any(it.get("err") for it in needed() if it["kind"] == "func"):
             return None
         u.inj["err"] = False
         return "injector does not return error although a provider can fail"
     if kind == "needcleanup":
-        if not any(it.get("cleanup") for it in u.items if it["kind"] == "func"):
+        if not any(it.get("cleanup") for it in needed() if it["kind"] == "func"):
             return None
         u.inj["cleanup"] = False
         return "injector does not return a cleanup although a provider has one"
